@@ -17,7 +17,7 @@ import (
 
 func init() {
 	register(&Rule{
-		ID: "RS-SM", Props: []string{"C01", "C02"}, Min: 6,
+		ID: "RS-SM", Props: []string{"C01", "C02"}, Min: 4,
 		Doc: `per-record accumulators of the FASTA/FASTQ chunk parsers are re-initialised for every record: the body of the byte loop (a 'switch state') is evaluated from
 its AST for every reachable parser state × 256 bytes × {previous byte is / is not an end of line} × the captured flags, in a tracing mode that records assignments, buffer
 Reset/Write calls and the record emission (NewBioSequence, _storeSequenceQuality) without computing any value; a must-define dataflow over the resulting state graph then
